@@ -283,3 +283,61 @@ func propertyCountCase(i int) *sem.Case {
 	}
 	return c
 }
+
+// siblingCollisionSetCase: three to five sibling properties whose names normalise to ONE Go identifier, one of them
+// being that identifier already ("Type" next to "@type", "type", "_type", "TYPE"), with colliders that sort before and
+// after it - every subset of size >= 3 that contains the exact name, every sibling of another JSON type. Distinct
+// fields, each key bound to its own field (a value of another sibling's type is rejected), on the root and nested.
+func siblingCollisionSetCase(i int) *sem.Case {
+	families := [][]string{
+		{"@type", "Type", "type", "_type", "-type"},
+		{"$id", "Id", "id", " id", "i_d"},
+		{"_name", "Name", "name", "-name", "n_ame"},
+		{"-x", "X", "x", "_x", "@x"},
+		{" kind", "Kind", "kind", "@kind", "KIND"},
+		{"#v1", "V1", "v1", "_v1", "v-1"},
+	}
+	fam := families[i%len(families)]
+	// subsets: always the exact name (index 1), plus a choice of the others
+	masks := []int{0b00101, 0b00111, 0b01101, 0b10101, 0b01111, 0b11111, 0b11001, 0b01011}
+	mask := masks[(i/len(families))%len(masks)] | 0b00010
+	kinds := []func(k int) (*sg.Schema, any){
+		func(k int) (*sg.Schema, any) { return &sg.Schema{Types: []string{"string"}, MinLen: 1}, fmt.Sprintf("s%d", k) },
+		func(k int) (*sg.Schema, any) { return &sg.Schema{Types: []string{"integer"}}, jsonx.N(int64(10 + k)) },
+		func(k int) (*sg.Schema, any) { return &sg.Schema{Types: []string{"boolean"}}, true },
+		func(k int) (*sg.Schema, any) {
+			return &sg.Schema{Types: []string{"array"}, Items: &sg.Schema{Types: []string{"integer"}}}, []any{jsonx.N(int64(k))}
+		},
+		func(k int) (*sg.Schema, any) {
+			return &sg.Schema{Types: []string{"object"}, Props: []sg.Prop{{Name: "q", S: &sg.Schema{Types: []string{"integer"}}}}, Required: []string{"q"}}, jsonx.Obj{{K: "q", V: jsonx.N(int64(k))}}
+		},
+	}
+	obj := &sg.Schema{Types: []string{"object"}}
+	full := jsonx.Obj{}
+	rot := (i / (len(families) * len(masks))) % 5
+	for k, nme := range fam {
+		if mask&(1<<k) == 0 {
+			continue
+		}
+		s, v := kinds[(k+rot)%len(kinds)](k)
+		obj.Props = append(obj.Props, sg.Prop{Name: nme, S: s})
+		full = append(full, jsonx.KV{K: nme, V: v})
+	}
+	obj.Props = append(obj.Props, sg.Prop{Name: "other", S: &sg.Schema{Types: []string{"number"}}})
+	nested := (i/len(families))%2 == 1
+	root := obj
+	wrap := func(o jsonx.Obj) any { return o }
+	if nested {
+		root = &sg.Schema{Types: []string{"object"}, Props: []sg.Prop{{Name: "rec", S: obj}, {Name: "list", S: &sg.Schema{Types: []string{"array"}, Items: obj}}}}
+		wrap = func(o jsonx.Obj) any { return jsonx.Obj{{K: "rec", V: o}, {K: "list", V: []any{o}}} }
+	}
+	c := &sem.Case{Root: root, Sig: fmt.Sprintf("sibling-collision-set/%d/%05b", i%len(families), mask), NoAuto: true}
+	c.Docs = append(c.Docs, docgen.Doc{V: wrap(full), Class: "collision", Label: "all-keys"}, docgen.Doc{V: wrap(jsonx.Obj{}), Class: "collision", Label: "no-keys"})
+	for x, kv := range full {
+		c.Docs = append(c.Docs, docgen.Doc{V: wrap(jsonx.Obj{kv}), Class: "collision", Label: "only-" + kv.K}, docgen.Doc{V: wrap(full.Del(kv.K)), Class: "collision", Label: "without-" + kv.K})
+		// the value of the next sibling (another JSON type) under this key: a type fault
+		other := full[(x+1)%len(full)]
+		c.Docs = append(c.Docs, docgen.Doc{V: wrap(jsonx.Obj{{K: kv.K, V: other.V}}), Class: "type", Label: "foreign-value-under-" + kv.K})
+	}
+	return c
+}
